@@ -39,6 +39,48 @@ class PathEnd(Exception):
     pass
 
 
+class DualSolver:
+    """the main incremental solver plus a mirror holding only the quantifier-free assumptions;
+    the mirror answers the (pruning-only) feasibility questions quickly"""
+
+    def __init__(self, opts):
+        self.main = z3.Solver()
+        self.main.set('timeout', opts.timeout_ms)
+        self.main.set('random_seed', opts.seed)
+        self.qf = z3.Solver()
+        self.qf.set('timeout', opts.branch_ms)
+        self.qf.set('random_seed', opts.seed)
+
+    def add(self, f):
+        from .solve import has_quantifier
+        self.main.add(f)
+        if not has_quantifier(f):
+            self.qf.add(f)
+
+    def push(self):
+        self.main.push()
+        self.qf.push()
+
+    def pop(self):
+        self.main.pop()
+        self.qf.pop()
+
+    def set(self, k, v):
+        self.main.set(k, v)
+
+    def check(self):
+        return self.main.check()
+
+    def feasible(self):
+        return self.qf.check() != z3.unsat
+
+    def model(self):
+        return self.main.model()
+
+    def reason_unknown(self):
+        return self.main.reason_unknown()
+
+
 class Frame:
     """activation of an SSA function (the function under contract or an inlined callee)"""
 
@@ -56,6 +98,7 @@ class Opts:
         self.timeout_ms = kw.get('timeout_ms', 3000)
         self.branch_ms = kw.get('branch_ms', 1000)
         self.max_paths = kw.get('max_paths', 4000)
+        self.merge = kw.get('merge', True)
         self.seed = kw.get('seed', 0)
         self.verbose = kw.get('verbose', False)
 
@@ -71,9 +114,7 @@ class FnCtx:
         self.cfg = CFG(self.fn)
         self.contract = prog.cs.funcs.get(fnkey) or C.FuncContract(fnkey, fnkey.split('::')[0], '', 0)
         self.opts = opts or Opts()
-        self.solver = z3.Solver()
-        self.solver.set('timeout', self.opts.timeout_ms)
-        self.solver.set('random_seed', self.opts.seed)
+        self.solver = DualSolver(self.opts)
         self.results = []
         self.assumed_used = set()
         self.opaque_calls = set()
@@ -81,6 +122,7 @@ class FnCtx:
         self.inlined = set()
         self.npaths = 0
         self.nforks = 0
+        self.nmerges = 0
         self.notes = []
         self.instrs = Instrs(self)
         self.recspecs = RecSpecs(self)
@@ -89,6 +131,9 @@ class FnCtx:
         self.entry = None
         self.dropped_auto = set()
         self.returns = 0
+        self.infeasible_ends = 0
+        self.covered = set()
+        self.failed_names = set()
         self.rel = fnkey.split('::', 1)[1]
         self.pkg = fnkey.split('::', 1)[0]
         self.short = self.pkg.rsplit('/', 1)[-1] + '.' + self.rel
@@ -105,9 +150,18 @@ class FnCtx:
     def prove(self, st, goal, name, kind, pos=None, text='', assume_after=True):
         t0 = time.time()
         g = z3.simplify(goal)
+        import os as _os
+        if _os.environ.get('VCGEN_DUMP') and _os.environ['VCGEN_DUMP'] in name:
+            print('DUMP', name)
+            print('  GOAL:', goal)
         if z3.is_true(g):
             self.results.append(Result(name, kind, self.fnkey, 'discharged', 0.0, 'simplify', pos, text))
             return True
+        if name in self.failed_names:
+            # already not discharged on another path: do not spend solver time again
+            if assume_after:
+                st.assume(goal)
+            return False
         self.solver.push()
         self.solver.add(z3.Not(goal))
         r = self.solver.check()
@@ -128,6 +182,7 @@ class FnCtx:
             res.inputs = self.model_inputs(model) if model is not None else None
             res.trace = list(st.trace)
             self.results.append(res)
+            self.failed_names.add(name)
         self.solver.pop()
         if assume_after:
             st.assume(goal)
@@ -253,6 +308,12 @@ class FnCtx:
                 st.assume(ev.bool(c.expr))
             except SpecError as ex:
                 self.stale('%s.requires[%s]' % (self.short, c.label or c.line), str(ex))
+        for c in self.prog.cs.pkg_invs.get(self.contract.pkg, []):
+            try:
+                st.assume(ev.bool(c.expr))
+                self.notes.append('package invariant assumed: ' + c.text)
+            except SpecError as ex:
+                self.stale('%s.pkg-invariant[%s]' % (self.short, c.line), str(ex))
         # vacuity: precondition satisfiable
         self.solver.push()
         r = self.solver.check()
@@ -286,6 +347,8 @@ class FnCtx:
         cfg = fr.cfg
         blk = cfg.blocks[b]
         st.trace.append(b)
+        if fr is self.top:
+            st.toptrace.append(b)
         if len(st.trace) > 3000:
             raise OutOfSubset('path too long')
         # leaving loops
@@ -306,6 +369,22 @@ class FnCtx:
                 st.regs[ins['name']] = newv[ins['name']]
                 if ins.get('comment') and fr is self.top:
                     st.names[ins['comment']] = ('reg', ins['name'])
+        # join point of an enclosing fork: hand the state to the collector
+        if st.stops and st.stops[-1][0] == (id(fr), b):
+            key, coll = st.stops[-1]
+            st.stops = st.stops[:-1]
+            coll.append(st)
+            return
+        self.enter_block(st, fr, b, pred, nphi)
+
+    def enter_block(self, st, fr, b, pred, nphi=None):
+        self._cur_state = st
+        cfg = fr.cfg
+        instrs = cfg.blocks[b]['instrs']
+        if nphi is None:
+            nphi = 0
+            while nphi < len(instrs) and instrs[nphi]['op'] in ('Phi',):
+                nphi += 1
         if b in cfg.loops:
             if not self.loop_header(st, fr, b, pred, instrs[:nphi]):
                 return
@@ -345,52 +424,113 @@ class FnCtx:
 
     def fork(self, st, fr, b, alts):
         """alts: list of (condition, successor block)"""
+        from .merge import merge_states
         self.nforks += 1
+        cfg = fr.cfg
         live = []
         for c, s in alts:
             cs = z3.simplify(c)
             if z3.is_false(cs):
                 continue
             live.append((c, cs, s))
+        J = cfg.ipdom.get(b) if self.opts.merge else None
+        if J is not None and J in cfg.loops and b in cfg.loops[J]:
+            J = None   # the "join" is a loop header reached by back edges
+        if len(live) < 2:
+            J = None
+        coll = [] if J is not None else None
+        base_len = len(st.assumptions)
+        base_pc = len(st.pathconds)
         for k, (c, cs, s) in enumerate(live):
             if self.npaths > self.opts.max_paths:
                 raise OutOfSubset('path limit exceeded')
             self.solver.push()
-            child = st.copy() if k < len(live) - 1 else st
+            child = st.copy() if (k < len(live) - 1 or J is not None) else st
             child.assume(c)
+            child.pathconds.append(c)
+            if J is not None:
+                child.stops = child.stops + [((id(fr), J), coll)]
             feasible = True
             if not z3.is_true(cs):
-                self.solver.set('timeout', self.opts.branch_ms)
-                r = self.solver.check()
-                self.solver.set('timeout', self.opts.timeout_ms)
-                feasible = (r != z3.unsat)
+                feasible = self.solver.feasible()
             try:
                 if feasible:
                     self.run_block(child, fr, s, b)
             finally:
                 self.solver.pop()
+        if J is None or not coll:
+            return
+        self.continue_from_join(st, coll, base_len, base_pc, lambda m: self.enter_block(m, fr, J, None))
 
-    def fork_cond(self, st, alts, k):
-        """generic fork on conditions; k(child_state, index) continues each feasible alternative"""
-        live = [(i, c) for i, c in enumerate(alts) if not z3.is_false(z3.simplify(c))]
-        for n, (i, c) in enumerate(live):
-            self.solver.push()
-            child = st.copy() if n < len(live) - 1 else st
-            child.assume(c)
-            self.solver.set('timeout', self.opts.branch_ms)
-            r = self.solver.check() if not z3.is_true(z3.simplify(c)) else z3.sat
-            self.solver.set('timeout', self.opts.timeout_ms)
+    def continue_from_join(self, parent, coll, base_len, base_pc, k):
+        """continue once from the merged state, or separately when the arms cannot be merged"""
+        from .merge import merge_states
+        merged = None
+        if len(coll) > 1:
             try:
-                if r != z3.unsat:
-                    k(child, i)
+                merged = merge_states(self, parent, coll, base_len, base_pc)
+            except OutOfSubset:
+                merged = None
+        if merged is not None:
+            self.nmerges += 1
+            self.solver.push()
+            try:
+                # the merged state's new assumption was recorded by merge_states through assume()
+                k(merged)
             finally:
                 self.solver.pop()
+            return
+        for s in coll:
+            self.solver.push()
+            try:
+                for a in s.assumptions[base_len:]:
+                    self.solver.add(a)
+                k(s)
+            finally:
+                self.solver.pop()
+
+    def fork_cond(self, st, alts, k, cont):
+        """alternatives on conditions: k(child, index) turns the child into the post-state of
+        alternative index; the results are joined and cont(state) continues once"""
+        live = [(i, c) for i, c in enumerate(alts) if not z3.is_false(z3.simplify(c))]
+        base_len = len(st.assumptions)
+        base_pc = len(st.pathconds)
+        coll = []
+        for n, (i, c) in enumerate(live):
+            self.solver.push()
+            child = st.copy()
+            child.assume(c)
+            child.pathconds.append(c)
+            ok = self.solver.feasible() if not z3.is_true(z3.simplify(c)) else True
+            try:
+                if ok:
+                    k(child, i)
+                    coll.append(child)
+            finally:
+                self.solver.pop()
+        if not coll:
+            return
+        if not self.opts.merge:
+            for s in coll:
+                self.solver.push()
+                try:
+                    for a in s.assumptions[base_len:]:
+                        self.solver.add(a)
+                    cont(s)
+                finally:
+                    self.solver.pop()
+            return
+        self.continue_from_join(st, coll, base_len, base_pc, cont)
 
     # ------------------------------------------------------------ return
     def do_return(self, st, fr, vals, ins):
         if fr.on_return is not None:
             fr.on_return(st, vals)
             return
+        if not self.path_feasible():
+            self.infeasible_ends += 1
+            return
+        self.mark_covered(st)
         self.npaths += 1
         self.returns += 1
         self.check_post(st, fr, vals, ins)
@@ -456,7 +596,7 @@ class FnCtx:
             a, b2 = z3.Select(cur, r), z3.Select(base, r)
             conds = [r >= 0, r <= st.alloc0]
             # one more level of indexing for element regions so that ranges can be excluded
-            nidx = sum(1 for x in key[2] if x == '[]') if key[0] != 'map' else 1
+            nidx = sum(1 for x in key[2] if x == '[]') if key[0] != 'map' else (0 if key[2] == ('len',) else 1)
             if nidx >= 1:
                 i0 = z3.Int(fresh_name('fr_i'))
                 idxs.append(i0)
@@ -465,6 +605,8 @@ class FnCtx:
                 ex = t.excludes(key, r, idxs)
                 if ex is not None:
                     conds.append(z3.Not(ex))
+            for (hp, pre, F) in h.frames.get(key, []):
+                conds.append(z3.Implies(r <= F, z3.Select(hp, r) == z3.Select(pre, r)))
             goal = z3.Implies(z3.And(conds), a == b2)
             self.prove(st, goal, nm, 'frame', ins.get('pos'), 'unchanged outside modifies', assume_after=False)
 
@@ -499,7 +641,7 @@ class FnCtx:
                            'loop exits within %d iterations' % unroll, assume_after=False)
                 return False
             return True
-        ev = self.evaluator(st, fr)
+        ev = self.evaluator(st, fr, old=self.entry_state.with_sink(st))
         invs = list(spec.invariants) if spec is not None else []
         autos = self.instrs.auto_invariants(st, fr, h, phis)
         if info is None:
@@ -507,24 +649,29 @@ class FnCtx:
             for c in invs:
                 self.prove_inv(st, fr, ev, c, h, label, 'establish')
             held = []
-            for (an, af) in autos:
+            for (an, af, meta) in autos:
                 if (label, an) in self.dropped_auto:
                     continue
                 g = af(st)
                 if self.quick_valid(g):
-                    held.append((an, af))
+                    held.append((an, af, meta))
                 else:
                     self.dropped_auto.add((label, an))
             dec0 = None
             self.instrs.havoc_loop(st, fr, h, phis, spec)
-            ev = self.evaluator(st, fr)
+            ev = self.evaluator(st, fr, old=self.entry_state.with_sink(st))
             for c in invs:
                 try:
                     st.assume(self.inv_formula(st, fr, ev, c, h))
                 except SpecError:
                     pass
-            for (an, af) in held:
+            for (an, af, meta) in held:
                 st.assume(af(st))
+                if meta is not None:
+                    # explicit instances of the frame fact are added wherever the region is read
+                    rkey = meta['key']
+                    st.heap.frames = dict(st.heap.frames)
+                    st.heap.frames[rkey] = st.heap.frames.get(rkey, []) + [(st.heap.r[rkey], meta['pre'], meta['F'])]
             if spec is not None and spec.decreases is not None:
                 try:
                     dec0 = self.inv_int(st, fr, ev, spec.decreases, h)
@@ -533,9 +680,13 @@ class FnCtx:
             st.loops[key] = {'cut': True, 'dec0': dec0, 'held': held}
             return True
         # back edge: preserve
+        if not self.path_feasible():
+            self.infeasible_ends += 1
+            return False
+        self.mark_covered(st)
         for c in invs:
             self.prove_inv(st, fr, ev, c, h, label, 'preserve')
-        for (an, af) in info.get('held', []):
+        for (an, af, meta) in info.get('held', []):
             if (label, an) in self.dropped_auto:
                 continue
             if not self.quick_valid(af(st)):
@@ -551,6 +702,21 @@ class FnCtx:
                 self.stale(label + '.decreases', str(ex))
         self.npaths += 1
         return False
+
+    def mark_covered(self, st):
+        self.covered.update(st.toptrace)
+
+    def uncovered_blocks(self):
+        """blocks of the function no feasible explored path went through"""
+        out = []
+        for b in self.cfg.blocks:
+            if b['idx'] not in self.covered:
+                lines = [i['pos']['line'] for i in b['instrs'] if i.get('pos')]
+                out.append({'block': b['idx'], 'comment': b.get('comment'), 'line': min(lines) if lines else None})
+        return out
+
+    def path_feasible(self):
+        return self.solver.feasible()
 
     def quick_valid(self, g):
         self.solver.push()
